@@ -17,7 +17,7 @@ def check(ctx, rep):
         "(mutator call, augmented or plain assignment, del, setattr, through a local alias too) sits in "
         "requires(), the job constructor, sanitize() or bypass_and_remove(), or in a private helper only they call. R19.9 a sequence never drops a requirement: "
         "on every path of its constructor and of its requires(), what was given is handed to a job's requires() or "
-        "kept in the object, and append() hands what was kept to the first job of a sequence that was empty.")
+        "kept in the object, and append() hands what was kept to the first job of a sequence that was empty. R19.10 (= R20.6) no class-level mutable object is mutated through an instance (state shared by every sequence / job).")
     rep.trusted = ["T8 set/list semantics"]
     buildrules.construction(ctx, rep, "R19.1", "R19.2", "R19.3", "R19.4", "R19.5")
     from . import common
@@ -29,3 +29,4 @@ def check(ctx, rep):
     common.no_state_across_calls(ctx, rep, "R19.7", funcs)
     buildrules.relation_writers(ctx, rep, "R19.8")
     buildrules.sequence_keeps_requirements(ctx, rep, "R19.9")
+    common.no_shared_class_state(ctx, rep, "R19.10")
